@@ -85,7 +85,7 @@ def plan(tier, seed):
             heavy.append({"kind": "determinism", "i": i})
         if i < ni:
             heavy.append({"kind": "insitu", "i": i})
-    cheap = sorted(specs, key=lambda c: -c.get("n", c.get("n_hi", 30)))
+    cheap = sorted(specs, key=lambda c: (c["kind"] != "batcher", -c.get("n", c.get("n_hi", 30))))  # largest batcher grid first (also the 4th evidence sample)
     return heavy[:3] + cheap[:1] + heavy[3:] + cheap[1:]
 
 
